@@ -13,8 +13,9 @@ RULE = ('every ordered pair of the 13 column types (Text, Int, Numeric, Bool, Da
         'ChoiceList, Any, Ref, RefList, Attachments) x two content streams (values entered through user actions, hence '
         'already converted by the source type; arbitrary stored values injected with a doc action, as a saved document '
         'may hold) over a pool of 48 values (None, empty/numeric/JSON/date-looking strings, ints at the 2^31 and 2^53 '
-        'edges, floats incl. NaN/inf, bools, lists, encoded dates, references, errors); quick tier: every pair with a '
-        'random half of the pool per stream; thorough: every pair with the whole pool, plus two-way reference columns. '
+        'edges, floats incl. NaN/inf, bools, lists, encoded dates, references, errors); quick tier: per source type and stream a '
+        'random 7 of the 12 targets with a random 18 values, plus runs of ==-equal values of different Python types; '
+        'thorough: every pair with the whole pool, plus two-way reference columns. '
         'A case is non-trivial when at least one cell changed its stored value')
 TRUSTED = ['Model/ModifyColumn.v is hand-written; tied on every run by replaying every generated case through the model '
            '(vm_compute) with the conversion, the storing normalisation and strict_equal tabulated from the running code, '
@@ -315,9 +316,11 @@ def cases(ctx):
   for T in TYPES:
     for raw in (False, True):
       vals = list(POOL) if ctx.tier == 'thorough' else ctx.rng.sample(POOL, 18)
-      for T2 in TYPES:
-        if T != T2:
-          out.append({'T': T, 'T2': T2, 'raw': raw, 'vals': vals, 'two_way': False})
+      targets = [t for t in TYPES if t != T]
+      if ctx.tier != 'thorough':
+        targets = ctx.rng.sample(targets, 7)
+      for T2 in targets:
+        out.append({'T': T, 'T2': T2, 'raw': raw, 'vals': vals, 'two_way': False})
   # adjacent cells that are == but of different types (1, True, 1.0; 0, False, 0.0; '' ...): each cell gets the
   # conversion of ITS OWN old value
   runs = [1, True, 1.0, 1, 0, False, 0.0, 0, None, '', 2, 2.0, True, True, 1, 'a', 'a', 1.0, True]
